@@ -249,9 +249,22 @@ def check_reiterable_sets(ctx):
     ctx.analysed(fi)
     from ..normalise import Defs, expand
     n = 0
+    # the locals that end up as self.N / self.D / self.B (whatever they are called)
+    sets_ = set()
+    for st in ast.walk(fi.node):
+        if isinstance(st, ast.Assign):
+            for tg in st.targets:
+                if isinstance(tg, ast.Tuple) and isinstance(st.value, ast.Tuple) and len(tg.elts) == len(st.value.elts):
+                    for a_, b_ in zip(tg.elts, st.value.elts):
+                        if U(a_) in ('self.N', 'self.D', 'self.B') and isinstance(b_, ast.Name):
+                            sets_.add(b_.id)
+                elif U(tg) in ('self.N', 'self.D', 'self.B') and isinstance(st.value, ast.Name):
+                    sets_.add(st.value.id)
+    if not sets_:
+        raise AnalysisError('build_graph: the message sets stored as self.N / self.D / self.B were not found')
     for st in ast.walk(fi.node):
         if isinstance(st, ast.Assign) and len(st.targets) == 1 and isinstance(st.targets[0], ast.Subscript) and isinstance(st.targets[0].value, ast.Name) \
-                and st.targets[0].value.id in ('N', 'D', 'B'):
+                and st.targets[0].value.id in sets_:
             n += 1
             v = st.value
             # look through a local / an inlined helper result
